@@ -145,6 +145,11 @@ Definition fs_removeall (c : cfg) (s : sys) (name0 : str) : sys * outc :=
   end.
 
 (* STFS.Rename *)
+(* Rename compares names in one spelling: "a/b", "./a/b" and "/a/b" are the same entry, "." and "" the root *)
+Definition spelling (n : str) : str :=
+  let c := path_clean n in
+  if eqb_str c [46] then [slash] else slash :: trim_prefix [slash] c.
+
 Definition fs_rename (c : cfg) (s : sys) (old0 new0 : str) : sys * outc :=
   if c_readonly c then (s, OPerm) else
   match old0, new0 with
@@ -157,14 +162,14 @@ Definition fs_rename (c : cfg) (s : sys) (old0 new0 : str) : sys * outc :=
     match rt with
     | None => (s, OInvalid)
     | Some r =>
-      if eqb_str r old then (s, OInvalid) else
+      if eqb_str r old || eqb_str (spelling r) (spelling old) then (s, OInvalid) else
       let '(s, src) := match stat_s s old false with
                        | (s, NoRows) => stat_s s old true
                        | x => x end in
       match src with
       | Ok sh =>
-        if eqb_str old new then (s, OOk) else
-        if (h_tf sh =? TypeDir) && has_prefix (trim_suffix [slash] old ++ [slash]) new then (s, OInvalid) else
+        if eqb_str old new || eqb_str (spelling old) (spelling new) then (s, OOk) else
+        if (h_tf sh =? TypeDir) && has_prefix (trim_suffix [slash] (spelling old) ++ [slash]) (spelling new) then (s, OInvalid) else
         match parent_check s new with
         | (s, OOk) =>
           match stat_s s new false with
